@@ -346,3 +346,72 @@ Theorem C03_kernel_nan_member_not_sorted :
        (exists out : crout, crps F64 rows = Some out /\ o_reli out = 0%float).
 Proof. exact @RefineCrps.finding_nan_member. Qed.
 Print Assumptions C03_kernel_nan_member_not_sorted.
+
+(* ================================================================== *)
+(* BINARY64: the laws about comparisons that the refinement theorem needs *)
+(* are proved for IEEE binary64 (Coq primitive floats, FloatAxioms of the *)
+(* standard library): the refinement holds of the arithmetic the compiled *)
+(* kernel really uses.                                                *)
+(* ================================================================== *)
+From Coq Require Import String Lia PrimFloat.
+From Hy Require Import Base.Num Base.MiniC Gen.KernelsAst Gen.Consts Gen.ConstsC03 Model.Crps.
+From Hy Require Proofs.F64Laws Proofs.RefineCrps.
+Import ListNotations.
+Open Scope string_scope.
+Open Scope list_scope.
+Open Scope Z_scope.
+
+(* on non-NaN binary64 numbers (both zeros, both infinities included) <= is total and transitive and < is its strict part *)
+Theorem C03_kernel_binary64_comparisons_are_a_total_preorder :
+  RefineCrps.ord_laws F64 (RefineCrps.notnan F64).
+Proof. exact @F64Laws.ord_laws_F64. Qed.
+Print Assumptions C03_kernel_binary64_comparisons_are_a_total_preorder.
+
+(* c_crps = the model in binary64, whenever no ensemble member is NaN *)
+Theorem C03_kernel_crps_refines_model_binary64 :
+  forall (rows : list (float * list float)) (m : nat) (wv rt0 : list float) (n : nat),
+       let v := filter (row_valid F64) rows in
+       v <> [] ->
+       Forall (fun r : float * list float => Datatypes.length (snd r) = m) v ->
+       Forall (fun r : float * list float => Forall (RefineCrps.notnan F64) (snd r)) v ->
+       Datatypes.length rt0 = (7 * S m)%nat ->
+       (Nat.max (Datatypes.length v) (S m) < n)%nat ->
+       match crps F64 rows with
+       | Some out =>
+           exec_fun F64 XF64 program (S n) "c_crps"
+             (RefineCrps.crps_args F64 CRPS_USE_WEIGHTS CRPS_IS_SORTED v m wv rt0) =
+           Ok
+             (RI 0,
+              [VArrF (map fst v); VArrF (List.concat (map snd v)); VArrF wv;
+               VArrF (RefineCrps.table_vals (o_table out)); VArrF (RefineCrps.dec_vals out)])
+       | None =>
+           exists code : Z,
+             0 < code /\
+             exec_fun F64 XF64 program (S n) "c_crps"
+               (RefineCrps.crps_args F64 CRPS_USE_WEIGHTS CRPS_IS_SORTED v m wv rt0) =
+             Ok
+               (RI code,
+                [VArrF (map fst v); VArrF (List.concat (map snd v)); VArrF wv; 
+                 VArrF rt0; VArrF [n0 F64; n0 F64; n0 F64; n0 F64; n0 F64]])
+       end.
+Proof. exact @F64Laws.refine_c_crps_F64. Qed.
+Print Assumptions C03_kernel_crps_refines_model_binary64.
+
+Theorem C03_kernel_crps_never_fails_binary64 :
+  forall (rows : list (float * list float)) (m : nat) (wv rt0 : list float) (n : nat),
+       let v := filter (row_valid F64) rows in
+       v <> [] ->
+       Forall (fun r : float * list float => Datatypes.length (snd r) = m) v ->
+       Forall (fun r : float * list float => Forall (RefineCrps.notnan F64) (snd r)) v ->
+       Datatypes.length rt0 = (7 * S m)%nat ->
+       (Nat.max (Datatypes.length v) (S m) < n)%nat ->
+       exists out : crout,
+         crps F64 rows = Some out /\
+         exec_fun F64 XF64 program (S n) "c_crps"
+           (RefineCrps.crps_args F64 CRPS_USE_WEIGHTS CRPS_IS_SORTED v m wv rt0) =
+         Ok
+           (RI 0,
+            [VArrF (map fst v); VArrF (List.concat (map snd v)); VArrF wv;
+             VArrF (RefineCrps.table_vals (o_table out)); VArrF (RefineCrps.dec_vals out)]).
+Proof. exact @F64Laws.refine_c_crps_ok_F64. Qed.
+Print Assumptions C03_kernel_crps_never_fails_binary64.
